@@ -317,14 +317,22 @@ func modelChecks(c *vlib.Check, thorough bool) cexSet {
 		edit: func(cfg string) string {
 			return strings.Replace(cfg, "INVARIANT CompleteLast", "INVARIANTS TypeOK NoRace NoSplice NoUseAfterFinish InOrder PreFirst SseFailed NoGarbage", 1)
 		}})
-	// multipart AS THE CODE IS, one payload cannot be encoded: NoCrash must be refuted (the ticker goroutine's
-	// flush panics, nothing recovers it), everything else must hold
-	jobs = append(jobs, job{name: "mc-mmfail-NoCrash", cfg: "MC_Stream_mmfail.cfg", mustFail: "NoCrash", cexKey: "NoCrash(multipart, payload that cannot be encoded)",
-		what: "multipart as the code is (MmEncodeInAdd = FALSE)"})
-	jobs = append(jobs, job{name: "mc-mmfail-rest", cfg: "MC_Stream_mmfail.cfg", what: "multipart as the code is, everything but NoCrash",
-		edit: func(cfg string) string {
-			return strings.Replace(cfg, "INVARIANT NoCrash", "INVARIANTS TypeOK MmFramed MmOrder MmNoEmpty MmComplete MmFailed NoGarbage", 1)
-		}})
+	// multipart, one payload cannot be encoded. As the code is since a4760cc (encoded in Add, Done waits for the
+	// ticker goroutine) everything holds, NoCrash and MmTickerStoppedAtReturn included. Regression of the SPEC: the
+	// design before (encoded only in flush) must still be refuted on exactly those two, the rest must hold.
+	pinnedMM := func(inv string) func(string) string {
+		return func(cfg string) string {
+			cfg = strings.Replace(cfg, "\n  MmEncodeInAdd = TRUE", "\n  MmEncodeInAdd = FALSE", 1)
+			return reInv.ReplaceAllString(cfg, inv)
+		}
+	}
+	jobs = append(jobs, job{name: "mc-mmfail", cfg: "MC_Stream_mmfail.cfg", what: "multipart as the code is (a4760cc) with a payload that cannot be encoded"})
+	jobs = append(jobs, job{name: "mc-mmfail-old-NoCrash", cfg: "MC_Stream_mmfail.cfg", mustFail: "NoCrash", cexKey: "NoCrash(multipart before a4760cc, payload that cannot be encoded)",
+		edit: pinnedMM("INVARIANT NoCrash"), what: "multipart before a4760cc (MmEncodeInAdd = FALSE)"})
+	jobs = append(jobs, job{name: "mc-mmfail-old-TickerStopped", cfg: "MC_Stream_mmfail.cfg", mustFail: "MmTickerStoppedAtReturn", cexKey: "MmTickerStoppedAtReturn(multipart before a4760cc)",
+		edit: pinnedMM("INVARIANT MmTickerStoppedAtReturn"), what: "multipart before a4760cc (MmEncodeInAdd = FALSE)"})
+	jobs = append(jobs, job{name: "mc-mmfail-old-rest", cfg: "MC_Stream_mmfail.cfg", what: "multipart before a4760cc, everything but NoCrash / MmTickerStoppedAtReturn",
+		edit: pinnedMM("INVARIANTS TypeOK MmFramed MmOrder MmNoEmpty MmComplete MmFailed NoGarbage")})
 	// HISTORIES: two requests on one handler. The code as it is shares nothing between requests: every
 	// per-stream invariant holds in every request + NoGarbage. The deviating design SharedBuf must be refuted.
 	jobs = append(jobs, job{name: "mc-hist", cfg: "MC_StreamHist.cfg", edit: hedit, cover: thorough, what: "Stream.tla, histories of two requests, the code as it is",
@@ -432,9 +440,10 @@ func selfTest(st *tlcStats) {
 	good = append(good,
 		fl(mk("sse", 3, false, "clean", 2, pre, nx(1), blob), 2, 1),
 		fl(mk("sse", 3, true, "clean", 1, pre, ping, blob), 1, 1),
-		fl(mk("mm", 2, false, "clean", 3, bnd, hdr, blob), 1, 1),                     // the initial payload, in Done's flush
-		fl(mk("mm", 2, false, "clean", 3, bnd, hdr, ini("t"), bnd, hdr, blob), 2, 1), // all three in Done's flush
-		fl(mk("mm", 2, false, "clean", 3, bnd, hdr, ini("t"), bnd, hdr, inc("t", 1), bnd, hdr, blob), 3, 1),
+		// multipart (a4760cc): Add panics on the handler goroutine, what is pending goes out with an ordinary boundary, then the error object
+		fl(mk("mm", 2, false, "clean", 1, blob), 1, 1),                          // the initial payload: nothing was pending
+		fl(mk("mm", 2, false, "clean", 2, bnd, hdr, ini("t"), bnd, blob), 2, 1), // the initial payload flushed by a tick or by Done
+		fl(mk("mm", 2, false, "clean", 3, bnd, hdr, ini("t"), bnd, hdr, inc("t", 1), bnd, blob), 3, 1),
 		fl(mk("sse", 2, false, "clean", 2, pre, nx(1), nx(2), cpl), 0, 2), // a later request of a history
 	)
 	bad = append(bad,
@@ -444,7 +453,11 @@ func selfTest(st *tlcStats) {
 		fl(mk("sse", 3, false, "clean", 2, pre, blob), 2, 1),                                        // an earlier payload lost
 		fl(mk("sse", 2, false, "clean", 2, pre, T("bad", 0, nil, "-"), nx(2), cpl), 0, 2),           // a later request with a garbled event
 		fl(mk("mm", 2, false, "clean", 3, bnd, hdr, ini("t"), bnd, hdr, inc("f", 1, 2), cls), 2, 1), // delivered although it cannot be encoded
-		fl(mk("mm", 2, false, "clean", 3, bnd, hdr, ini("t"), bnd, hdr, blob, cls), 2, 1),
+		fl(mk("mm", 2, false, "clean", 2, bnd, hdr, ini("t"), bnd, blob, cls), 2, 1),
+		// the design before a4760cc (encoded inside flush: the part header is already out when it fails; the handler went on asking for payloads)
+		fl(mk("mm", 2, false, "clean", 3, bnd, hdr, blob), 1, 1),
+		fl(mk("mm", 2, false, "clean", 3, bnd, hdr, ini("t"), bnd, hdr, blob), 2, 1),
+		fl(mk("mm", 2, false, "clean", 3, bnd, hdr, ini("t"), bnd, blob), 2, 1), // the source was asked for a payload after the one that cannot be encoded
 	)
 	// the deviating design SharedBuf must explain exactly the garbled event of a request that FOLLOWS a failed one
 	hA := fl(mk("sse", 3, false, "clean", 1, pre, blob), 1, 1)
@@ -668,11 +681,11 @@ func judge(c *vlib.Check, scs []*Scenario, kids []*child, hists []*history, st *
 			se := s.Stderr
 			if strings.Contains(se, "panic:") && strings.Contains(se, "(*sseConnection).keepAlive") && s.ka() {
 				c.Violate(keyCrash, "the server process died: panic on the sseConnection.keepAlive goroutine, which used the ResponseWriter after net/http had finished the request\n"+describe(s)+"\n"+tailStr(se, 1800), ro(s))
-			} else if s.Gen == nil && s.Kind == "mm" && s.FailAt > 0 && strings.Contains(se, "panic:") && strings.Contains(se, "newMultipartResponseAggregator.func1") &&
-				strings.Contains(se, "(*multipartResponseAggregator).flush") && (strings.Contains(se, "transport.writeJson") || strings.Contains(se, "transport.writeIncrementalJson")) {
-				// Stream.tla: MMFlushTick with FailIn -> crashed (NoCrash, refuted for the code as it is by MC_Stream_mmfail.cfg)
+			} else if s.Gen == nil && s.Kind == "mm" && s.FailAt > 0 && strings.Contains(se, "panic:") && strings.Contains(se, "newMultipartResponseAggregator.func1") {
+				// Stream.tla: MMFlushTick with FailIn -> crashed. NoCrash holds for the code since a4760cc (a payload is encoded
+				// in Add, on the handler goroutine); this is the design before it (MC_Stream_mmfail.cfg, MmEncodeInAdd = FALSE) - a regression
 				mmCrashes++
-				c.Violate(keyMMCrash, fmt.Sprintf("the server process died: payload %d of a multipart/mixed response cannot be serialized (%s) and the aggregator's TICKER goroutine was the one to flush it - the panic of writeJson / writeIncrementalJson is on a goroutine nobody recovers (in Done's flush the same panic is recovered by handler.Server)\n", s.FailAt, s.FailMode)+describe(s)+"\n"+tailStr(se, 1800), ro(s))
+				c.Violate(keyMMCrash, fmt.Sprintf("the server process died: payload %d of a multipart/mixed response cannot be serialized (%s) and the panic is on the aggregator's TICKER goroutine, which nobody recovers (a payload must be encoded on the handler goroutine, where handler.Server recovers the panic: a4760cc)\n", s.FailAt, s.FailMode)+describe(s)+"\n"+tailStr(se, 1800), ro(s))
 				continue // a dead process' stream is not validated (Stream.tla: crashed)
 			} else if s.Gen != nil {
 				c.Violate("gen-defer:server-crash{"+s.Kind+"}", "the server process died while serving a @defer query from generated code\n"+describe(s)+"\n"+tailStr(se, 2400), ro(s))
@@ -790,12 +803,6 @@ func judge(c *vlib.Check, scs []*Scenario, kids []*child, hists []*history, st *
 		for _, rpt := range k.raceReports() {
 			nrace++
 			key, what := classifyRace(rpt)
-			if strings.Contains(rpt, "newMultipartResponseAggregator.func1") && strings.Contains(rpt, "(*multipartResponseAggregator).flush") && diedOfUnencodable(k) {
-				// Stream.tla: MMDoneFlush with FailIn (recovered), then MMTick, MMFlushTick -> crashed: the ticker goroutine took
-				// a tick instead of `done`, found the payload that cannot be encoded still pending and wrote to the
-				// ResponseWriter after the handler had returned - an instant before the panic that killed this process
-				key, what = keyMMCrash, "the aggregator's ticker goroutine flushing the still pending unencodable payload after the handler returned ("+what+")"
-			}
 			if seen[key+what] {
 				continue
 			}
@@ -888,6 +895,16 @@ func classifyRace(rpt string) (key, what string) {
 	case ka:
 		// the other side is net/http finishing the request, or whoever got the recycled bufio.Writer
 		return keyRaceFinish, what
+	}
+	tk, srv := false, false
+	for _, s := range sides {
+		tk = tk || s == "mm.ticker"
+		srv = srv || s == "net/http.conn.serve"
+	}
+	if tk && srv {
+		// the aggregator's ticker goroutine used the ResponseWriter while / after net/http finished the request: since
+		// a4760cc Done waits for that goroutine to exit (Stream.tla: MmTickerStoppedAtReturn) - the design before it
+		return keyMMCrash, what + " (the aggregator's ticker goroutine writes after the handler returned)"
 	}
 	return "race{" + what + "}", what
 }
@@ -1176,16 +1193,4 @@ func withHistory(s *Scenario, hists []*history) *Scenario {
 		}
 	}
 	return &cp
-}
-
-// diedOfUnencodable: did an incarnation of this child die of the aggregator's ticker goroutine
-// meeting a payload that cannot be encoded (keyMMCrash)?
-func diedOfUnencodable(k *child) bool {
-	for _, se := range k.crashes {
-		if strings.Contains(se, "panic:") && strings.Contains(se, "newMultipartResponseAggregator.func1") &&
-			(strings.Contains(se, "transport.writeJson") || strings.Contains(se, "transport.writeIncrementalJson")) {
-			return true
-		}
-	}
-	return false
 }
